@@ -103,7 +103,7 @@ def make_trace(tid, rng, nops=25, **opt):
         ext, cb = False, 9
         cs, esz, l2_real = 512, 8, 64
         nc = rng.randrange(8400, 9000)
-    datafile = rng.random() < 0.25
+    datafile = rng.random() < 0.25 or bool(opt.get("datafile"))
     npos = nc + 2
     pos = list(range(0 if datafile else 1, npos + 1))
     if rng.random() < 0.6:
@@ -161,7 +161,7 @@ def make_trace(tid, rng, nops=25, **opt):
     vf, dvf, info = enc_qcow2.build(img, cluster_bits=cb, K=1, version=3 if (ext or datafile) else rng.choice([2, 3]),
                                     header_length=rng.choice([104, 112]), copied=rng.random() < 0.7, size_bytes=size_b,
                                     comp_maximal=rng.random() < 0.3, comp_level=rng.choice([6, 6, 0, 1]),
-                                    datafile_ext=rng.random() < 0.6, backing_fmt_ext=rng.random() < 0.7,
+                                    datafile_ext=rng.random() < (0.6 if not opt.get("datafile") else 0.3), backing_fmt_ext=rng.random() < 0.7,
                                     # header fields a reader must not let influence the mapping
                                     hdr_extra={"compat": rng.choice([0, 1, 0xFF00]), "autoclear": rng.choice([0, 1, 3]), "refcount_order": rng.choice([4, 0, 6]),
                                                "refcount_clusters": rng.choice([1, 0, 7])},
